@@ -1,16 +1,25 @@
 (* C03 - pause/resume and suspend/release do not change the recorded data.
 
-   SHIPPED AS PARTIAL (DESIGN 5, C03): the data-equivalence statement (b) -- final map (run, stream, seq_num) -> data
-   and every num_events equal to the uninterrupted run, under checkpoint-local determinism of the devices -- is NOT
-   proved; it is decided on the differential corpus by the implementation-side oracle (harness/props/C03.py).
-   Proved here, about the bundler of Engine/RE.v, for all bundler states:
+   (b) DATA EQUIVALENCE, proved (C03_data_equivalence_* below, Proofs/RE_Points*.v): for every open-loop
+   checkpointed plan (any number of points, bundles, streams, runs, with stage/unstage around them: the class of
+   Engine/PointSpec.v, which contains the built-in count and scan plans as the RunEngine sees them), devices that do not
+   fail and whose readings are determined by the `read` message, and EVERY well-formed schedule with pause requests
+   (hard, or deferred to the next checkpoint) + resume() and suspension requests (no pre/post plans) + releases at
+   arbitrary moments, any number of times, also during a replay and also while an earlier suspension keeps rewinding
+   switched off (the window that is C11's subject), a finished execution has recorded
+   exactly the (run, stream, seq_num, data) events and the RunStop documents of the reference semantics -- hence the
+   same as the uninterrupted execution -- and nothing raised.
+   Still decided only by the differential oracle (harness/props/C03.py): suspenders with pre/post plans, plans outside the class (rewindable toggles, monitors,
+   several open runs at once, closed-loop plans), record_interruptions.
+   (a) Proved about the bundler of Engine/RE.v, for all bundler states:
      (a) a checkpoint snapshots every sequence counter; a rewind puts every snapshotted counter of a data stream
          back (the 'interruptions' stream keeps counting), whatever create/read/save/drop did in between, cancels the
          open bundle and keeps descriptors and run identity; the engine-level rewind (resume / _start_suspender)
          rewinds every bundler and empties the cache;
      + C04 (Props/C04.v): exactly the messages since the checkpoint are re-issued, in order. *)
 From Coq Require Import List ZArith.
-From BV Require Import Engine.RE Engine.REInst Proofs.RE_Ctl Proofs.RE_Replay Proofs.RE_CtlExamples.
+From BV Require Import Engine.RE Engine.REInst Engine.PointSpec Proofs.RE_Ctl Proofs.RE_Replay Proofs.RE_CtlExamples
+  Proofs.RE_Points Proofs.RE_PointsEx Proofs.RE_PointsEx2 Proofs.RE_PointsEx3.
 Import ListNotations.
 
 Theorem C03_rewind_restores_counters :
@@ -58,13 +67,13 @@ Theorem C03_partial : C03_partial_statement.
 Proof. exact c03_partial. Qed.
 Print Assumptions C03_partial.
 
-(* the full statement, for the record (not proved): with devices whose answers after a checkpoint depend only on the
-   messages since that checkpoint, adding accepted pause/resume and suspend/release pairs to a schedule changes
-   neither the final (run, stream, seq_num) -> data map nor any RunStop *)
-Definition final_events (o : list obs) : list (nat * nat * nat * list (nat * Z)) :=
-  flat_map (fun x => match x with ODoc (DEvent r n sq dt) => [(r, n, sq, dt)] | _ => [] end) o.
-Definition stops (o : list obs) : list doc :=
-  flat_map (fun x => match x with ODoc (DStop r st_ rs num) => [DStop r st_ rs num] | _ => [] end) o.
+(* the statement planned in the design round: adding accepted pause/resume and suspend/release pairs to a schedule,
+   every other event left in place, changes neither the final (run, stream, seq_num) -> data map nor any RunStop.
+   As written it is FALSE on the model (C03_full_refuted): resuming costs task steps, a schedule with the same task
+   steps does not finish the plan.  The corrected statement quantifies over well-formed schedules instead of
+   "the same schedule plus pairs": C03_data_equivalence_interruptions. *)
+Definition final_events := PointSpec.final_events.
+Definition stops := PointSpec.stops.
 Definition C03_full : Prop :=
   forall (P : Type) (presume : P -> input -> outcome P) (plan_of : nat -> P) (D : Type) (dev : D -> nat -> devmeth -> D * devres)
          (d : D) (paus stag : list nat) (evs evs_interrupted : list event),
@@ -82,3 +91,126 @@ Example C03_nonvacuous :
   existsb (fun x => match x with ODoc (DEvent 0 0 2 _) => true | _ => false end) o = true /\
   In (ODoc (DStop 0 XSuccess RsEmpty [(0, 2)])) o.
 Proof. exact c03_interrupted_point_is_retaken. Qed.
+
+(* ------------------------------------------------------------------ (b) data equivalence, pause/resume *)
+Theorem C03_full_refuted : ~ C03_full.
+Proof. exact naive_statement_refuted. Qed.
+Print Assumptions C03_full_refuted.
+
+(* a finished execution recorded exactly the reference documents of the plan: the events (as a set), the documents
+   that open and close runs ([rundocs]: RunStart, RunStop, in order; [stops]: the RunStops alone) *)
+Theorem C03_data_equivalence_reference :
+  forall (P : Type) (presume : P -> input -> outcome P) (plan_of : nat -> P) (rk : nat) (rdm : msg -> Z) (rv : val) (pid : nat)
+         (L : list msg) (SD : list doc),
+    spec_docs rk rdm L = Some SD -> follows P presume rv L (plan_of pid) ->
+    forall (D : Type) (dev : D -> nat -> devmeth -> D * devres), dev_typed D dev ->
+    forall (d : D) (paus stag : list nat) (evs : list event),
+      let s0 := fst (step P presume plan_of D dev (init P D d paus stag false) (EvMain (ACall pid))) in
+      let r := run P presume plan_of D dev (init P D d paus stag false) (EvMain (ACall pid) :: evs) in
+      sched_ok P presume plan_of D dev s0 evs = true -> reads_ok rdm None (snd r) = true -> finished P D (fst r) = true ->
+      (forall x, In x (final_events (snd r)) <-> In x (doc_events SD)) /\ rundocs (snd r) = doc_rundocs SD /\
+      stops (snd r) = doc_stops SD /\ no_raise (snd r) = true.
+Proof. exact c03_run_matches_reference. Qed.
+Print Assumptions C03_data_equivalence_reference.
+
+(* any two finished executions of the plan -- e.g. one with pause/resume and suspend/release at arbitrary moments and
+   the uninterrupted one -- recorded the same (run, stream, seq_num) -> data map and the same RunStop documents; no
+   call raised *)
+Theorem C03_data_equivalence_interruptions :
+  forall (P : Type) (presume : P -> input -> outcome P) (plan_of : nat -> P) (rk : nat) (rdm : msg -> Z) (rv : val) (pid : nat)
+         (L : list msg) (SD : list doc)
+         (D1 : Type) (dev1 : D1 -> nat -> devmeth -> D1 * devres) (d1 : D1) (paus1 stag1 : list nat) (evs1 : list event)
+         (D2 : Type) (dev2 : D2 -> nat -> devmeth -> D2 * devres) (d2 : D2) (paus2 stag2 : list nat) (evs2 : list event),
+    spec_docs rk rdm L = Some SD -> follows P presume rv L (plan_of pid) ->
+    dev_typed D1 dev1 -> dev_typed D2 dev2 ->
+    let r1 := run P presume plan_of D1 dev1 (init P D1 d1 paus1 stag1 false) (EvMain (ACall pid) :: evs1) in
+    let r2 := run P presume plan_of D2 dev2 (init P D2 d2 paus2 stag2 false) (EvMain (ACall pid) :: evs2) in
+    sched_ok P presume plan_of D1 dev1 (fst (step P presume plan_of D1 dev1 (init P D1 d1 paus1 stag1 false) (EvMain (ACall pid)))) evs1 = true ->
+    sched_ok P presume plan_of D2 dev2 (fst (step P presume plan_of D2 dev2 (init P D2 d2 paus2 stag2 false) (EvMain (ACall pid)))) evs2 = true ->
+    reads_ok rdm None (snd r1) = true -> reads_ok rdm None (snd r2) = true ->
+    finished P D1 (fst r1) = true -> finished P D2 (fst r2) = true ->
+    (forall x, In x (final_events (snd r1)) <-> In x (final_events (snd r2))) /\
+    rundocs (snd r1) = rundocs (snd r2) /\ stops (snd r1) = stops (snd r2) /\ no_raise (snd r1) = true /\ no_raise (snd r2) = true.
+Proof. exact c03_data_equivalence. Qed.
+Print Assumptions C03_data_equivalence_interruptions.
+
+(* at every moment of such an execution, finished or not: only events of the reference run, nothing raised *)
+Theorem C03_data_equivalence_every_prefix :
+  forall (P : Type) (presume : P -> input -> outcome P) (plan_of : nat -> P) (rk : nat) (rdm : msg -> Z) (rv : val) (pid : nat)
+         (L : list msg) (SD : list doc),
+    spec_docs rk rdm L = Some SD -> follows P presume rv L (plan_of pid) ->
+    forall (D : Type) (dev : D -> nat -> devmeth -> D * devres), dev_typed D dev ->
+    forall (d : D) (paus stag : list nat) (evs : list event),
+      let s0 := fst (step P presume plan_of D dev (init P D d paus stag false) (EvMain (ACall pid))) in
+      let r := run P presume plan_of D dev (init P D d paus stag false) (EvMain (ACall pid) :: evs) in
+      sched_ok P presume plan_of D dev s0 evs = true -> reads_ok rdm None (snd r) = true ->
+      (forall x, In x (final_events (snd r)) -> In x (doc_events SD)) /\ no_raise (snd r) = true.
+Proof. exact c03_every_prefix_safe. Qed.
+Print Assumptions C03_data_equivalence_every_prefix.
+
+(* non-vacuity: eight executions recorded from the real RunEngine (uninterrupted; paused after a save; paused twice,
+   once during the replay; paused inside a read; suspended and released; deferred pause; suspended, released and
+   paused during the suspender's replay; suspended while paused) are reproduced by the model, meet every hypothesis
+   above, and the interrupted ones do re-issue reads and re-emit an event *)
+Example C03_data_equivalence_nonvacuous :
+  spec_docs 0 ex_rdm ex_L = Some ex_SD /\ follows TP (t_resume ex_tapes) (VUid 0) ex_L (t_plan_of 0) /\
+  (forall ledger, dev_typed nat (ty_dev ledger)) /\
+  (hyps_ok ex_plain_ledger ex_plain_evs' = true /\ hyps_ok ex_after_save_ledger ex_after_save_evs' = true /\
+   hyps_ok ex_twice_ledger ex_twice_evs' = true /\ hyps_ok ex_in_read_ledger ex_in_read_evs' = true /\
+   hyps_ok ex_susp_ledger ex_susp_evs' = true /\ hyps_ok ex_defer_ledger ex_defer_evs' = true /\
+   hyps_ok ex_susp_pause_ledger ex_susp_pause_evs' = true /\ hyps_ok ex_pause_susp_ledger ex_pause_susp_evs' = true) /\
+  check ex_tapes ex_after_save_ledger [2] [0; 3] false ex_after_save_evs ex_after_save_obs = true /\
+  check ex_tapes ex_susp_pause_ledger [2] [0; 3] false ex_susp_pause_evs ex_susp_pause_obs = true /\
+  List.length (PointSpec.final_events ex_plain_obs) = 2 /\ List.length (PointSpec.final_events ex_after_save_obs) = 3 /\
+  In (OState Running Suspending) ex_susp_pause_obs /\ In (OState Running Pausing) ex_susp_pause_obs /\
+  ((forall x, In x (PointSpec.final_events ex_after_save_obs) <-> In x (PointSpec.final_events ex_plain_obs)) /\
+   PointSpec.stops ex_after_save_obs = PointSpec.stops ex_plain_obs /\ no_raise ex_after_save_obs = true) /\
+  ((forall x, In x (PointSpec.final_events ex_susp_pause_obs) <-> In x (PointSpec.final_events ex_plain_obs)) /\
+   PointSpec.stops ex_susp_pause_obs = PointSpec.stops ex_plain_obs /\ no_raise ex_susp_pause_obs = true).
+Proof. exact c03_equivalence_nonvacuous. Qed.
+
+
+(* ... and on a real bluesky plan: bluesky.plans.scan([det], motor, 0, 4, 3), recorded from the real RunEngine
+   uninterrupted, with a pause inside the first point (+ resume) and with a suspension (+ release): the recorded plan
+   is of the class, every hypothesis holds, reads are re-issued (6 / 8 / 7 reading responses), and the theorem yields
+   equal events and RunStops *)
+Example C03_data_equivalence_scan_nonvacuous :
+  (spec_docs 0 sc_rdm sc_L = Some sc_SD /\ List.length sc_L = 36 /\ List.length (doc_events sc_SD) = 3) /\
+  follows TP (t_resume sc_tapes) (VUid 0) sc_L (t_plan_of 0) /\
+  (sc_plain_tapes = sc_tapes /\ sc_pause_tapes = sc_tapes /\ sc_susp_tapes = sc_tapes /\
+   check sc_tapes sc_plain_ledger [2] [0; 3] false sc_plain_evs sc_plain_obs = true /\
+   check sc_tapes sc_pause_ledger [2] [0; 3] false sc_pause_evs sc_pause_obs = true /\
+   check sc_tapes sc_susp_ledger [2] [0; 3] false sc_susp_evs sc_susp_obs = true) /\
+  (sc_hyps_ok sc_plain_ledger sc_plain_evs' = true /\ sc_hyps_ok sc_pause_ledger sc_pause_evs' = true /\
+   sc_hyps_ok sc_susp_ledger sc_susp_evs' = true) /\
+  (count_reads sc_plain_obs = 6 /\ count_reads sc_pause_obs = 8 /\ count_reads sc_susp_obs = 7) /\
+  ((forall x, In x (PointSpec.final_events sc_pause_obs) <-> In x (PointSpec.final_events sc_plain_obs)) /\
+   PointSpec.stops sc_pause_obs = PointSpec.stops sc_plain_obs /\ no_raise sc_pause_obs = true /\
+   (forall x, In x (PointSpec.final_events sc_susp_obs) <-> In x (PointSpec.final_events sc_plain_obs)) /\
+   PointSpec.stops sc_susp_obs = PointSpec.stops sc_plain_obs /\ no_raise sc_susp_obs = true).
+Proof. exact c03_scan_summary. Qed.
+
+
+(* ... and requests INSIDE a suspension's non-rewindable window: three more executions of the two-point plan recorded
+   from the real RunEngine (suspended, then paused between two messages of the suspender plan; suspended, then suspended
+   again inside the window; suspended, then paused inside the suspender's wait_for) are reproduced by the model and
+   meet every hypothesis; the second request arrives while rewinding is off and is accepted; equal events and RunStops *)
+Example C03_data_equivalence_window_nonvacuous :
+  (hyps_ok ex_win_pause_ledger ex_win_pause_evs' = true /\ hyps_ok ex_win_susp_ledger ex_win_susp_evs' = true /\
+   hyps_ok ex_win_wait_pause_ledger ex_win_wait_pause_evs' = true) /\
+  check ex_tapes ex_win_pause_ledger [2] [0; 3] false ex_win_pause_evs ex_win_pause_obs = true /\
+  check ex_tapes ex_win_susp_ledger [2] [0; 3] false ex_win_susp_evs ex_win_susp_obs = true /\
+  check ex_tapes ex_win_wait_pause_ledger [2] [0; 3] false ex_win_wait_pause_evs ex_win_wait_pause_obs = true /\
+  (nth_error ex_win_pause_evs 18 = Some (EvReqPause false) /\
+   rewindable TP nat (ty_before ex_win_pause_ledger ex_win_pause_evs 18) = false /\
+   state TP nat (ty_before ex_win_pause_ledger ex_win_pause_evs 19) = Pausing) /\
+  (nth_error ex_win_susp_evs 19 = Some (EvReqSuspend 1 false false) /\
+   rewindable TP nat (ty_before ex_win_susp_ledger ex_win_susp_evs 19) = false /\
+   state TP nat (ty_before ex_win_susp_ledger ex_win_susp_evs 20) = Suspending) /\
+  ((forall x, In x (PointSpec.final_events ex_win_pause_obs) <-> In x (PointSpec.final_events ex_plain_obs)) /\
+   PointSpec.stops ex_win_pause_obs = PointSpec.stops ex_plain_obs /\ no_raise ex_win_pause_obs = true) /\
+  ((forall x, In x (PointSpec.final_events ex_win_susp_obs) <-> In x (PointSpec.final_events ex_plain_obs)) /\
+   PointSpec.stops ex_win_susp_obs = PointSpec.stops ex_plain_obs /\ no_raise ex_win_susp_obs = true) /\
+  ((forall x, In x (PointSpec.final_events ex_win_wait_pause_obs) <-> In x (PointSpec.final_events ex_plain_obs)) /\
+   PointSpec.stops ex_win_wait_pause_obs = PointSpec.stops ex_plain_obs /\ no_raise ex_win_wait_pause_obs = true).
+Proof. exact c03_window_nonvacuous. Qed.
